@@ -122,6 +122,7 @@ def _e2e(policy, estimands, name):
         """__init__ then get_units on the real code: every feed unit (and, under 'zero', every baseline unit)
         is in exactly one of the three frames, exactly once, with its live count."""
         root, base, feed, s = C09._feed_and_baseline(h, estimands, nullable_results=True)
+        h.default_replay = lambda ev: {"target": "verif_replays:get_units_scenario_replay", "args": [], "check": "result['exc'] is None and result['ok']"}
         est = h.obj(f"{C09.EST}.Estimandizer")
         kind, pre = h.call_method(est, "add_estimand_baselines", base, {e: e for e in estimands}, False)
         if kind == "raise":
